@@ -102,7 +102,7 @@ func descriptions(quickSubset bool) []desc {
 }
 
 var credUsers = []*string{sp("alice"), sp("bob"), sp("carol"), sp(""), nil}
-var credPws = []string{"p1", "p2", "", "p1x"}
+var credPws = []string{"p1", "p2", "", "p1x", "caf\u00e9", "caf\u00e8"}
 
 // ---------------------------------------------------------------------------
 // login-product
